@@ -33,6 +33,8 @@ struct World {
     wa: TransactionView,
     wb: TransactionView,
     s: TransactionView,
+    /// spends output 0 of the cellbase of block 6 with since = 0 (cellbase maturity = 4 blocks: mature from height 10)
+    m: TransactionView,
     /// (branch, contents of the valid blocks below, content) -> block
     memo: HashMap<(String, Vec<String>, String), BlockView>,
 }
@@ -43,7 +45,15 @@ fn testdata(name: &str) -> Bytes {
 
 impl World {
     fn new() -> World {
-        let p = Params { epoch_len: 1000, window: (2, 10), genesis_cells: 4, ..Default::default() };
+        // window (2,4): cellbases carry an output from block 6 on; cellbase maturity 4/1000 epoch = 4 blocks.
+        // The specification's heights 5, 6, 7 are the real heights 9, 10, 11 (prefix m1..m8), SinceAt 6 = height 10.
+        let p = Params {
+            epoch_len: 1000,
+            window: (2, 4),
+            genesis_cells: 4,
+            cellbase_maturity: ckb_types::core::EpochNumberWithFraction::new(0, 4, 1000),
+            ..Default::default()
+        };
         let mut c = consensus(&p);
         // every hard fork active from epoch 0 (script version selection is then context-independent; exec needs VM 1)
         c.hardfork_switch = ckb_types::core::hardfork::HardForks::new_dev();
@@ -78,25 +88,34 @@ impl World {
         assert_ne!(wa.witness_hash(), wb.witness_hash());
         let s = TransactionBuilder::default()
             .cell_dep(always_success_dep(&c))
-            .input(CellInput::new(OutPoint::new(tx0.hash(), 2), 6)) // absolute block number 6
+            .input(CellInput::new(OutPoint::new(tx0.hash(), 2), 10)) // absolute block number 10
             .output(CellOutput::new_builder().capacity(cap(998)).lock(lock()).build())
             .output_data(Bytes::new())
             .build();
         let g = Node::start(&NodeCfg { assembler: false, ..NodeCfg::temp(&c) });
         let mut prefix = vec![];
-        let specs = [
-            BlockSpec { proposals: vec![tx0.proposal_short_id()], nonce: 1, ..Default::default() },
-            BlockSpec { nonce: 2, ..Default::default() },
-            BlockSpec { commits: vec![tx0.clone()], proposals: vec![wa.proposal_short_id(), s.proposal_short_id()], nonce: 3, ..Default::default() },
-            BlockSpec { nonce: 4, ..Default::default() },
-        ];
-        for sp in specs {
+        let mut m: Option<TransactionView> = None;
+        for h in 1..=8u64 {
+            let mut sp = BlockSpec { nonce: h, ..Default::default() };
+            match h {
+                1 => sp.proposals = vec![tx0.proposal_short_id()],
+                3 => sp.commits = vec![tx0.clone()],
+                7 => sp.proposals = vec![wa.proposal_short_id(), s.proposal_short_id(), m.as_ref().unwrap().proposal_short_id()],
+                _ => {}
+            }
             let b = assemble(&g, &sp).expect("assemble prefix");
             g.process(&b).expect("prefix block");
+            if h == 6 {
+                let cb = b.transactions()[0].clone();
+                assert!(!cb.outputs().is_empty(), "cellbase of block 6 has no output");
+                let cbcap: u64 = cb.outputs().get(0).unwrap().capacity().unpack();
+                m = Some(spend(&c, &[OutPoint::new(cb.hash(), 0)], cbcap, 1, 900, 0));
+            }
             prefix.push(b);
         }
+        let m = m.unwrap();
         drop(g);
-        World { c, prefix, tx0, wa, wb, s, memo: HashMap::new() }
+        World { c, prefix, tx0, wa, wb, s, m, memo: HashMap::new() }
     }
 
     fn tx(&self, v: &str) -> &TransactionView {
@@ -104,6 +123,7 @@ impl World {
             "wa" => &self.wa,
             "wb" => &self.wb,
             "s" => &self.s,
+            "m" => &self.m,
             _ => panic!("variant {v}"),
         }
     }
@@ -125,7 +145,7 @@ impl World {
             m.process_unchecked(b).expect("builder node rejects an ancestor");
         }
         let base = if g == "X" { 100 } else { 200 };
-        for c in ["none", "wa", "wb", "s"] {
+        for c in ["none", "wa", "wb", "s", "m"] {
             let commits = if c == "none" { vec![] } else { vec![self.tx(c).clone()] };
             let spec = BlockSpec { commits, nonce: base + below.len() as u64, ..Default::default() };
             // a content whose input is already spent on this branch cannot even be assembled: commit it "raw" on a
@@ -218,7 +238,7 @@ fn observe(n: &Node, w: &World, delivered: &[(String, BlockView)]) -> BTreeMap<S
     }
     let unknown: Byte32 = [0xABu8; 32].pack();
     block_answers(st, "absent", &unknown, &mut out);
-    for (name, tx) in [("tx0", &w.tx0), ("W", &w.wa), ("S", &w.s)] {
+    for (name, tx) in [("tx0", &w.tx0), ("W", &w.wa), ("S", &w.s), ("M", &w.m)] {
         let th = tx.hash();
         out.insert(
             format!("get_transaction|{name}"),
@@ -245,7 +265,7 @@ fn one_cfg() -> StoreConfig {
 }
 
 fn class_of(err: &str) -> &'static str {
-    if err.contains("Immature") {
+    if err.contains("Immatur") {
         "immature"
     } else if err.contains("Dead") || err.contains("Unknown(") || err.contains("Unknown ") {
         "dead"
@@ -289,7 +309,7 @@ fn run_history(w: &mut World, kind: &str, hist: &[Value]) -> Value {
     n.wait_pool_synced();
     let mut warm_hits = 0;
     if kind == "C" {
-        for v in ["wa", "wb", "s"] {
+        for v in ["wa", "wb", "s", "m"] {
             let tx = w.tx(v).clone();
             if let Ok(Ok(_)) = n.shared.tx_pool_controller().submit_local_tx(tx.clone()) {
                 let _ = n.shared.tx_pool_controller().remove_local_tx(tx.hash());
@@ -310,6 +330,7 @@ fn run_history(w: &mut World, kind: &str, hist: &[Value]) -> Value {
         rec.insert("k".into(), st["k"].clone());
         rec.insert("v".into(), json!(v));
         let vc_before = vcache_len(&n);
+        rec.insert("m_cached".into(), json!(n.shared.txs_verify_cache().blocking_read().peek(&w.m.witness_hash()).is_some()));
         if st["k"] == "pool" {
             let tx = w.tx(&v).clone();
             let key_cached = n.shared.txs_verify_cache().blocking_read().peek(&tx.witness_hash()).is_some();
